@@ -9,7 +9,7 @@ _reg('isa', ['I1', 'I4', 'I6'])
 _reg('jit', ['J1', 'X0', 'X1'])
 _reg('recip', ['R1', 'R2', 'R3'])
 _reg('api', ['H1', 'D2', 'I7'])
-_reg('life', ['H6', 'H7', 'H3', 'K1'])
+_reg('life', ['H6', 'H7', 'H3', 'K1', 'H8'])
 _reg('sshash', ['S4', 'D1', 'S1', 'S5', 'S2', 'S3'])
 _reg('vmloop', ['I8'])
 _reg('foot', ['F1'])
@@ -62,7 +62,7 @@ PROPS = {
  'C16': dict(level='other', lemmas=['H7'],
    files=['src/vm_compiled.cpp', 'src/vm_compiled_light.cpp', 'src/dataset.cpp', 'src/virtual_memory.c', 'src/jit_compiler_x86.cpp', 'src/randomx.cpp'],
    explanation='TODO', trusted=[], outside=[]),
- 'C03': dict(level='other', lemmas=['H3', 'H1', 'H6', 'K1'],
+ 'C03': dict(level='other', lemmas=['H3', 'H8', 'H1', 'H6', 'K1', 'G3', 'G6', 'G4'],
    files=['src/randomx.cpp', 'src/virtual_machine.cpp', 'src/virtual_machine.hpp', 'src/vm_compiled_light.cpp', 'src/vm_interpreted_light.cpp', 'src/vm_compiled.cpp', 'src/dataset.hpp', 'src/aes_hash.cpp'],
    explanation='TODO', trusted=[], outside=[]),
  'C09': dict(level='translation_validation', lemmas=['S4', 'S1', 'S2', 'S3', 'S5'],
